@@ -142,10 +142,45 @@ def patrol(chk, n):
     return bad
 
 
+def moment(rsl, N):
+    """N-th Mellin moment of a distribution given as an RSL object"""
+    from scipy.integrate import quad
+    tot = 0.0
+    if rsl.reg is not None:
+        tot += quad(lambda z: z ** (N - 1) * rsl.reg(z, rsl.args["reg"]), 0, 1, epsabs=1e-12, limit=400)[0]
+    if rsl.sing is not None:
+        tot += quad(lambda s: 2 * s * ((1 - s * s) ** (N - 1) - 1) * rsl.sing(1 - s * s, rsl.args["sing"]) if s > 0 else 0.0, 0, 1, epsabs=1e-12, limit=400)[0]
+    if rsl.loc is not None:
+        tot += rsl.loc(0.0, rsl.args["loc"])
+    return tot
+
+
+def h3_patrol(chk):
+    """H3 (not proved): the composite labels are the Mellin convolutions of the LO splitting functions — tested through moments"""
+    from yadism.coefficient_functions import splitting_functions as split
+    labs = {lab: fnc for ol in split.raw_labels for lab, fnc in ol.items()}
+    pairs = {"P_qq_0^2": ("P_qq_0", "P_qq_0"), "P_qg_0P_gq_0": ("P_qg_0", "P_gq_0"), "P_qq_0P_qg_0": ("P_qq_0", "P_qg_0"), "P_qg_0P_gg_0": ("P_qg_0", "P_gg_0")}
+    bad, n = [], 0
+    for nf in (3, 4, 5, 6):
+        for N in (2.0, 3.0, 4.5, 8.0):
+            m = {l: moment(labs[l](nf), N) for l in set(pairs) | {x for p in pairs.values() for x in p}}
+            for lab, (a, b) in pairs.items():
+                n += 1
+                if abs(m[lab] - m[a] * m[b]) > 1e-7 * max(1.0, abs(m[lab])):
+                    bad.append(dict(label=lab, nf=nf, N=N, moment=m[lab], product=m[a] * m[b]))
+    chk.patrol["H3_moments"] = dict(cases=n, failures=len(bad), rule="hypothesis H3 of the C05 theorems (not proved): Mellin moments N = 2, 3, 4.5, 8 of the composite splitting kernels "
+                                                                     "P_qq_0^2, P_qg_0 P_gq_0, P_qq_0 P_qg_0, P_qg_0 P_gg_0 equal the products of the LO moments, nf = 3..6, 1e-7 — a test")
+    for b in bad[:2]:
+        chk.violation("h3:%s" % b["label"], "splitting kernel %s is not the convolution of its LO factors: moment N=%s (nf=%d) is %r, the product of the factors' moments %r"
+                      % (b["label"], b["N"], b["nf"], b["moment"], b["product"]), dict(h3=b))
+    return bad
+
+
 def run(chk):
     chk.trusted = TRUSTED
     quick = chk.tier == "quick"
     common.check_props_file(chk, "C05")
+    h3_patrol(chk)
     bad = scalevar.run_scalevar(chk, 50 if quick else 600)
     chk.oblige("correspondence ScaleVariations (model = real manager, multi-nf sequences)", not bad, str(bad[:1])[:600])
     patrol(chk, 5 if quick else 60)
